@@ -2,8 +2,6 @@
 
 def register(add, PENDING):
     PENDING.update({
-        "C18": "simulation target per DESIGN.md 5 real mode; check not built yet, therefore not claimed",
-        "C36": "simulation target per DESIGN.md 5 real mode; check not built yet, therefore not claimed",
     })
 
     STORE_NOTE = ("Trusted: the harness (libc filesystem interposition with a seam self-test at every start, child-process protocol, directory-tree oracles), "
@@ -31,3 +29,14 @@ def register(add, PENDING):
         "DESIGN.md 8, 9/C33",
         "Hundreds of thousands of seeded sequences (5-60 calls) over the whole secret-handling surface (constructors, hashing, both serialisations and their error paths, equality, drop) run under an allocator the simulator owns; a freed block containing a live secret is a violation unless it is byte-for-byte the documented upstream pad buffer; Secret::new must zero the caller's buffer on Ok and Err. Weakest fit of the claimed properties: there is no clock or I/O here, the environment the property depends on is allocator placement and the history of calls and drops.",
         "Trusted: the harness allocator (with a built-in canary that must be caught in every run and a reach probe on the exempt upstream block), zero-on-alloc while simulating, typed exactly-sized boxes for pooled objects so the harness itself never moves a secret out of a heap slot. Stack copies and plonky2's PartialWitness are out of scope as in sensitive.rs.")
+
+    REAL_NOTE = ("Trusted: the harness (world generation, native oracles, network model), plonky2 proving/verification, the canonical public-batch verifier rebuilt from the working tree as 'the chain', the guarded RNG wrapper and witness accessors. "
+                 "Every circuit, artifact and proof is real; N, M in {1,2}. Proof bytes differ run to run (ZK blinding), public inputs do not; logs and oracles use public inputs only.")
+    add("C18", "exploration", "multi-party simulation in real mode: two aggregators with different addresses exchange real public-batch proofs over a faulty network; each proof checked at the chain, its producer and the other miner, as is and corrupted in flight",
+        "DESIGN.md 5.4 O-address, 9/C18",
+        "Seeded runs of the whole pipeline with real proofs: every proof ProvingContext::prove_batch returns must verify under the canonical verifier rebuilt from source and expose the configured address; the other aggregator (random address, address differing in one felt, or the all-zero address) must reject it although it is valid; copies with the address felts swapped for the receiver's, a flipped felt, or a shortened/lengthened public-input vector must be rejected without panicking.",
+        REAL_NOTE)
+    add("C36", "exploration", "multi-party simulation in real mode: clients, pool, two proving layers and chain on honest inputs, with a native conservation oracle fed by the RNG seam",
+        "DESIGN.md 5.4 O-conservation, 9/C36",
+        "Seeded runs on honest inputs: deposits under a real header, real leaf proofs split into padded private batches (slot order and dummy preimages known through the RNG seam), pooled by the real aggregator, snapshot and proved into public batches; per verified public proof the exit slots must sum (in total and per account) to what the real leaves pay, the non-zero nullifiers must be exactly the real nullifiers plus H(H(u)) of every dummy preimage of the real inners, and padding inners' segments must be all-zero. Says nothing about adversarial witnesses.",
+        REAL_NOTE)
